@@ -1,14 +1,14 @@
 (* C12 — IOStream writes deliver every byte once, in order, and resolve in order.
    Property theorems only; proofs are in ProofsBuf.v, ProofsStream.v, ProofsMain.v, ProofsCheck.v.
 
-   Vocabulary (Model.v): [run_ops ops (init thr max script)] is the stream after ANY sequence of
+   Vocabulary (Model.v): [run_ops ops (init_with conn thr max script)] is the stream after ANY sequence of
    operations (write d | WRITE-ready | close) against ANY transport script (accept <= k bytes |
    EWOULDBLOCK | OSError; an exhausted script accepts everything), for any coalescing threshold
    [thr] and any max_write_buffer_size.  [tr s] is the trace of everything that happened, newest
    event first; [sent_of]/[written_of] are the bytes accepted by the transport / by write() so far. *)
 From Coq Require Import List NArith Arith Bool.
 Import ListNotations.
-From TV Require Import Lib.Obs C12.Model C12.Run C12.ProofsBuf C12.ProofsStream C12.ProofsMain C12.ProofsLive C12.ProofsCheck.
+From TV Require Import Lib.Obs C12.Model C12.Run C12.ProofsBuf C12.ProofsStream C12.ProofsMain C12.ProofsLive C12.ProofsDrain C12.ProofsCheck.
 
 (* ---- (REF) _StreamBuffer refines a byte string ---- *)
 Theorem C12_buffer_empty : wf empty_buf /\ abs empty_buf = [].
@@ -51,40 +51,55 @@ Theorem C12_buffer_size_is_length : forall b, wf b -> bsize b = length (abs b).
 Proof. intros b (_ & _ & H). exact H. Qed.
 Print Assumptions C12_buffer_size_is_length.
 
+(* ... for ALL operation sequences from the empty buffer (any threshold): the buffer is a plain
+   byte queue ([q_ref]: append = ++, advance n = skipn n, an ill-sized advance is a no-op) *)
+Theorem C12_buffer_refines_queue_for_all_sequences :
+  forall thr ops, exists b,
+    q_impl thr ops empty_buf = Some b /\ wf b /\ abs b = q_ref ops [] /\
+    bsize b = length (q_ref ops []).
+Proof.
+  intros thr ops. destruct (q_refines thr ops empty_buf wf_empty) as (b & A & B & C).
+  change (abs empty_buf) with (@nil N) in C.
+  exists b. split; [exact A|]. split; [exact B|]. split; [exact C|].
+  rewrite <- C. apply B.
+Qed.
+Print Assumptions C12_buffer_refines_queue_for_all_sequences.
+
 (* ---- (INV) the stream ---- *)
 (* every event of every run satisfies the property checker [event_ok] w.r.t. its past *)
 Theorem C12_every_trace_is_good :
-  forall thr max script ops, goodb (tr (run_ops ops (init thr max script))) = true.
+  forall conn thr max script ops, goodb (tr (run_ops ops (init_with conn thr max script))) = true.
 Proof. exact trace_good. Qed.
 Print Assumptions C12_every_trace_is_good.
 
 (* no assertion of _StreamBuffer / _handle_write can fire and the send loop terminates *)
 Theorem C12_no_assertion_escapes :
-  forall thr max script ops, dead (run_ops ops (init thr max script)) = false.
+  forall conn thr max script ops, dead (run_ops ops (init_with conn thr max script)) = false.
 Proof. exact never_dead. Qed.
 Print Assumptions C12_no_assertion_escapes.
 
 (* the bytes handed to the transport are, at every moment, a prefix of the concatenated writes *)
 Theorem C12_sent_is_prefix_of_written :
-  forall thr max script ops,
-    let s := run_ops ops (init thr max script) in
+  forall conn thr max script ops,
+    let s := run_ops ops (init_with conn thr max script) in
     exists rest, written_of (tr s) = sent_of (tr s) ++ rest.
 Proof. exact sent_prefix_written. Qed.
 Print Assumptions C12_sent_is_prefix_of_written.
 
 (* each write_to_fd call is offered/accepts exactly the next unsent bytes *)
 Theorem C12_each_send_is_the_next_bytes :
-  forall thr max script ops post off d pre,
-    tr (run_ops ops (init thr max script)) = post ++ ESend off d :: pre ->
-    length d <= off /\ exists r, written_of pre = sent_of pre ++ d ++ r.
+  forall conn thr max script ops post off d pre,
+    tr (run_ops ops (init_with conn thr max script)) = post ++ ESend off d :: pre ->
+    length d <= off /\ connecting_tr pre = false /\
+    exists r, written_of pre = sent_of pre ++ d ++ r.
 Proof. exact send_spec. Qed.
 Print Assumptions C12_each_send_is_the_next_bytes.
 
 (* while the stream is open nothing is lost or duplicated: sent ++ buffered = written, the two
    counters are the lengths, the buffer respects max_write_buffer_size *)
 Theorem C12_open_stream_conserves_bytes :
-  forall thr max script ops,
-    let s := run_ops ops (init thr max script) in
+  forall conn thr max script ops,
+    let s := run_ops ops (init_with conn thr max script) in
     closed s = false ->
     wf (wb s) /\ sent_of (tr s) ++ abs (wb s) = written_of (tr s) /\
     twi s = length (written_of (tr s)) /\ twd s = length (sent_of (tr s)) /\
@@ -96,8 +111,8 @@ Print Assumptions C12_open_stream_conserves_bytes.
 
 (* futures are numbered in write order ... *)
 Theorem C12_futures_numbered_in_write_order :
-  forall thr max script ops post id d pre,
-    tr (run_ops ops (init thr max script)) = post ++ EWrite id d :: pre -> id = count_writes pre.
+  forall conn thr max script ops post id d pre,
+    tr (run_ops ops (init_with conn thr max script)) = post ++ EWrite id d :: pre -> id = count_writes pre.
 Proof. exact write_ids. Qed.
 Print Assumptions C12_futures_numbered_in_write_order.
 
@@ -105,17 +120,27 @@ Print Assumptions C12_futures_numbered_in_write_order.
    already been accepted by the transport (as the first bytes of the stream), and #id is the
    oldest unsettled future: resolution happens in write order *)
 Theorem C12_resolve_only_after_bytes_sent_and_in_order :
-  forall thr max script ops post id pre,
-    tr (run_ops ops (init thr max script)) = post ++ EResolve id :: pre ->
+  forall conn thr max script ops post id pre,
+    tr (run_ops ops (init_with conn thr max script)) = post ++ EResolve id :: pre ->
     exists w r rest, written_through id pre = Some w /\ sent_of pre = w ++ r /\
                      pending_ids pre = id :: rest.
 Proof. exact resolve_spec. Qed.
 Print Assumptions C12_resolve_only_after_bytes_sent_and_in_order.
 
+(* IOStream.connect(): "it is safe to call write while the connection is pending" -- while it is
+   pending nothing has been handed to the transport and no write future has resolved; everything
+   queued is subject to all the other theorems once the connection is up *)
+Theorem C12_nothing_sent_or_resolved_while_connecting :
+  forall conn thr max script ops,
+    let s := run_ops ops (init_with conn thr max script) in
+    connecting s = true -> sent_of (tr s) = [] /\ (forall id, ~ In (EResolve id) (tr s)).
+Proof. exact connecting_quiet. Qed.
+Print Assumptions C12_nothing_sent_or_resolved_while_connecting.
+
 (* after close no future stays pending *)
 Theorem C12_close_settles_every_future :
-  forall thr max script ops,
-    let s := run_ops ops (init thr max script) in
+  forall conn thr max script ops,
+    let s := run_ops ops (init_with conn thr max script) in
     closed s = true -> wfut s = [] /\ pending_ids (tr s) = [].
 Proof. exact closed_state. Qed.
 Print Assumptions C12_close_settles_every_future.
@@ -139,18 +164,38 @@ Print Assumptions C12_refused_write_has_no_side_effects.
    is waiting for bytes the transport has not yet accepted -- i.e. a future whose bytes are all out
    has been resolved -- and buffered bytes imply the stream is listening for WRITE (no lost wake-up) *)
 Theorem C12_futures_resolve_promptly :
-  forall thr max script ops,
-    let s := run_ops ops (init thr max script) in
-    closed s = false -> Forall (fun p => twd s < fst p) (wfut s).
+  forall conn thr max script ops,
+    let s := run_ops ops (init_with conn thr max script) in
+    closed s = false -> connecting s = false -> Forall (fun p => twd s < fst p) (wfut s).
 Proof. exact prompt. Qed.
 Print Assumptions C12_futures_resolve_promptly.
 
 Theorem C12_buffered_bytes_are_awaited :
-  forall thr max script ops,
-    let s := run_ops ops (init thr max script) in
-    closed s = false -> 0 < bsize (wb s) -> listening s = true.
+  forall conn thr max script ops,
+    let s := run_ops ops (init_with conn thr max script) in
+    closed s = false -> (0 < bsize (wb s) \/ connecting s = true) -> listening s = true.
 Proof. exact awaited. Qed.
 Print Assumptions C12_buffered_bytes_are_awaited.
+
+(* eventual delivery, for every partial-send schedule: whatever the (finite) transport script still
+   holds -- short accepts, zero accepts, EWOULDBLOCK, errors -- after |script|+1 further WRITE-ready
+   events the stream is either closed (only an OSError or a refused connect does that) or completely
+   drained: every written byte was handed to the transport and every write future has resolved *)
+Theorem C12_eventually_every_byte_is_delivered :
+  forall conn thr max script ops,
+    let s := run_ops ops (init_with conn thr max script) in
+    let s' := run_ops (repeat OReady (S (length (Model.script s)))) s in
+    closed s' = true \/
+    (closed s' = false /\ bsize (wb s') = 0 /\ wfut s' = [] /\
+     sent_of (tr s') = written_of (tr s')).
+Proof. exact eventually_drained. Qed.
+Print Assumptions C12_eventually_every_byte_is_delivered.
+
+Example C12_example_drain :
+  let s := run_ops [OWrite [7;8;9]%N; OWrite []] (init_with (Some true) 2 None [Accept 1; Accept 0; Block]) in
+  let s' := run_ops (repeat OReady (S (length (Model.script s)))) s in
+  connecting s = true /\ closed s' = false /\ sent_of (tr s') = [7;8;9]%N /\ wfut s' = [].
+Proof. vm_compute. repeat split. Qed.
 
 (* the executable model always passes the checker that the harness applies to the real code *)
 Theorem C12_model_passes_checker : forall c, check_case c (run_case c) = true.
@@ -160,7 +205,7 @@ Print Assumptions C12_model_passes_checker.
 (* the hypotheses above are satisfiable by a non-trivial run: a 3-byte write over a transport that
    first blocks, then takes 2 bytes, then the rest *)
 Example C12_example_run :
-  let s := run_ops [OWrite [1;2;3]%N; OReady; OReady] (init 2 None [Block; Accept 2]) in
+  let s := run_ops [OWrite [1;2;3]%N; OReady; OReady] (init_with None 2 None [Block; Accept 2]) in
   closed s = false /\ sent_of (tr s) = [1;2;3]%N /\ wfut s = [] /\
   exists post pre, tr s = post ++ EResolve 0 :: pre.
 Proof.
